@@ -75,8 +75,10 @@ type reqEnv struct {
 	mu      sync.Mutex
 	seen    []seenReq
 	current reqSpec
-	srv     *httptest.Server
-	cs      kubernetes.Interface
+	// watchStatus != 0: watch requests are answered with this HTTP status and a Status body
+	watchStatus int
+	srv         *httptest.Server
+	cs          kubernetes.Interface
 }
 
 func newReqEnv(t *testing.T) *reqEnv {
@@ -87,7 +89,16 @@ func newReqEnv(t *testing.T) *reqEnv {
 		spec := e.current
 		e.mu.Unlock()
 		w.Header().Set("Content-Type", "application/json")
-		if r.URL.Query().Get("watch") == "true" {
+		if r.URL.Query().Get("watch") == "true" || strings.Contains(r.URL.Path, "/watch/") {
+			e.mu.Lock()
+			code := e.watchStatus
+			e.mu.Unlock()
+			if code != 0 {
+				// the watch endpoint refuses: an API status error
+				w.WriteHeader(code)
+				fmt.Fprintf(w, `{"kind":"Status","apiVersion":"v1","status":"Failure","message":"injected","reason":%q,"code":%d}`, http.StatusText(code), code)
+				return
+			}
 			w.WriteHeader(200)
 			if f, ok := w.(http.Flusher); ok {
 				f.Flush()
@@ -180,6 +191,52 @@ func (e *reqEnv) check(spec reqSpec, ns, rv string) (string, []seenReq) {
 	return "", got
 }
 
+// checkWatchRefused: the server refuses the watch with an API status error.
+// Watch() must fail, and the only request the server may have seen is the
+// canonical watch request: a typed client has exactly one way of watching its
+// resource in its namespace.
+func (e *reqEnv) checkWatchRefused(spec reqSpec, ns string, code int) (string, []seenReq) {
+	e.mu.Lock()
+	e.current = spec
+	e.seen = nil
+	e.watchStatus = code
+	e.mu.Unlock()
+	defer func() {
+		e.mu.Lock()
+		e.watchStatus = 0
+		e.mu.Unlock()
+	}()
+	c := spec.newClient(e.cs, ns)
+	ctx, cancel := context.WithTimeout(context.Background(), 20*time.Second)
+	defer cancel()
+	wi, err := c.Watch(ctx, metav1.ListOptions{ResourceVersion: "5", Watch: true})
+	if err == nil {
+		wi.Stop()
+	}
+	e.mu.Lock()
+	got := append([]seenReq(nil), e.seen...)
+	e.mu.Unlock()
+	nsPart := ""
+	if ns != "" {
+		nsPart = "/namespaces/" + ns
+	}
+	// the two spellings the API offers for "watch this resource in this namespace"
+	wantWatchPath := spec.prefix + "/watch" + nsPart + "/" + spec.resource
+	altWatchPath := spec.prefix + nsPart + "/" + spec.resource
+	for _, r := range got {
+		if r.method != "GET" || (r.path != wantWatchPath && !(r.path == altWatchPath && strings.Contains(r.query, "watch=true"))) {
+			return fmt.Sprintf("%s client, namespace %q: the watch endpoint answered %d; the client then issued %s %s?%s - it may only ever watch %s in that namespace (%s or %s?watch=true)", spec.pkg, ns, code, r.method, r.path, r.query, spec.resource, wantWatchPath, altWatchPath), got
+		}
+	}
+	if err == nil {
+		return fmt.Sprintf("%s client, namespace %q: the watch endpoint answered %d but Watch() reported success (requests: %v)", spec.pkg, ns, code, got), got
+	}
+	if len(got) == 0 {
+		return fmt.Sprintf("%s client: Watch() failed without any request", spec.pkg), got
+	}
+	return "", got
+}
+
 // TestC20_RequestsAll: all 12 typed clients x {all namespaces, one namespace}.
 func TestC20_RequestsAll(t *testing.T) {
 	e := newReqEnv(t)
@@ -200,6 +257,13 @@ func TestC20_RequestsAll(t *testing.T) {
 			statCase("C20", hashString(id), true, func() interface{} {
 				return map[string]interface{}{"mode": "requests", "type": spec.pkg, "namespace": ns, "list": got[0].path, "watch": got[1].path + "?" + got[1].query}
 			}, "requests", "requests_"+spec.pkg)
+			for _, code := range []int{403, 404, 405, 410, 500} {
+				if msg, _ := e.checkWatchRefused(spec, ns, code); msg != "" {
+					writeEnumReplay(t, "C20", "TestC20_RequestsAll", fmt.Sprintf("%s refused %d", id, code), msg)
+					t.Fatalf("C20 violation: %s", msg)
+				}
+				statLabel("C20", "requests_watch_refused_checked", 1)
+			}
 		}
 	}
 	statExhaustive("C20", fmt.Sprintf("requests: all 12 typed clients x {all namespaces, one namespace} (%d list/watch pairs) against a loopback API server", n))
